@@ -6,7 +6,9 @@ BINS = ["ux_math"]
 RULE = ("all (a,b,m) at BITS<=4 and all (a,e,m) at BITS<=3 (exhaustive); otherwise moduli {0,1,2,3,2^k,2^k+-1,"
         "2^BITS-1,2^BITS-2, one-limb, half-width, full-width with all-ones low limbs, random} x operands {>=m, m-1, "
         "MAX, boundary, random} incl. sums/products overflowing BITS; exponents 0,1,2,2^k,2^k-1 mostly <=16 bit, a few "
-        "full width at <=256 bit; inv_mod on coprime and non-coprime pairs; quotient / cofactor witnesses from Python "
+        "full width at <=256 bit, and exponents spanning 2-4 limbs, sparse (2^64, 2^128 + 5, a zero limb below a non-zero one) and dense, "
+        "against small moduli; inv_mod on coprime and non-coprime pairs incl. pairs sharing a multi-limb factor whose low limb is 1 "
+        "(2^64 + 1, 2^128 + 1); quotient / cofactor witnesses from Python "
         "integers; a case is one distinct (width, operands)")
 
 
@@ -80,6 +82,19 @@ def scenarios(tier, rng):
                 invmod(bits, a, m)
             if m > 2 and m % 2 == 0:
                 invmod(bits, rng.randrange(0, mx) & ~1 & mx, m)
+        # value and modulus sharing a LARGE factor whose low limb is 1 (2^64 + 1, 2^128 + 1, k 2^64 + 1): the gcd the loop ends with
+        # is then a multi-limb number that looks like 1 in its lowest limb; and coprime pairs built the same way
+        if bits >= 129:
+            for f in [(1 << 64) + 1, (1 << 128) + 1, (rng.getrandbits(40) << 64) + 1, (1 << 64) + (1 << 63) + 1]:
+                if f.bit_length() + 8 > bits:
+                    continue
+                room = bits - f.bit_length()
+                for _ in range(2 if quick else 8):
+                    x = rng.getrandbits(max(room - rng.randrange(0, 4), 2)) | 1
+                    y = rng.getrandbits(max(room - rng.randrange(0, 4), 2)) | 1
+                    if f * x <= mx and f * y <= mx and f * y >= 2:
+                        invmod(bits, f * x, f * y)
+                        invmod(bits, f * x + 1, f * y)
         # pow_mod
         es = {0, 1, 2, 3, 4, 255, 256, 65535, 65536 & mx, 2**16 - 1}
         es = sorted(x for x in es if x <= mx)
@@ -89,6 +104,21 @@ def scenarios(tier, rng):
             a = rng.choice([rand_value(rng, bits), mx, max(m - 1, 0), 2, 0])
             e = rng.choice(es + [rng.getrandbits(min(bits, 12))])
             powmod(bits, a, e, m)
+        # exponents spanning several limbs, sparse (a zero limb below a non-zero one) and dense, with SMALL moduli so that the
+        # per-step witnesses stay cheap: the exponent walk must look at every limb
+        if 65 <= bits <= 576:
+            long_es = {1 << 64, (1 << 64) + 1, 3 << 64, (1 << 64) | (1 << 63), (1 << (bits - 1)) & mx, ((1 << (bits - 1)) | 5) & mx,
+                       (1 << 64) - 1, mx if bits <= 192 else (mx >> (bits - 150))}
+            if bits > 128:
+                long_es |= {1 << 128, (1 << 128) + 5, (1 << 128) | (1 << 64), 7 << 128 if bits > 131 else 1 << 128}
+            if bits > 192:
+                long_es |= {1 << 192, (1 << 192) | 9}
+            small_ms = [3, 65537, 1000003, (1 << 61) - 1]
+            for e in sorted(x for x in long_es if 0 < x <= mx):
+                if quick and rng.random() < 0.4 and e not in (1 << 64, (1 << 128) + 5):
+                    continue
+                m = rng.choice(small_ms)
+                powmod(bits, rng.choice([2, 3, rand_value(rng, bits), mx]), e, m)
         for m in (0, 1, 2, mx):
             powmod(bits, mx, 3 & mx, m)
             powmod(bits, 0, 0, m)
